@@ -393,7 +393,13 @@ def main(argv):
         "seed": seed,
         "level": level,
         "coverage": coverage,
-        "assumptions": cfg.get("assumptions", []) + ["closed world of element classes; no concurrency; graph mutated only through the Network API"],
+        "assumptions": cfg.get("assumptions", []) + list(cfg.get("trusted_base", [])) + [
+            "closed world of element classes; no concurrency; graph mutated only through the Network API",
+            "machine arithmetic (float64, CasADi) treated as real arithmetic; exp/log/pow are uninterpreted symbols constrained by Lean-proved lemma instances",
+            "pyvc's semantics of the Python subset used by the repository (pyvc/interp.py) and its assumed contracts of numpy, CasADi, networkx, functools, itertools (pyvc/arrays.py, pyvc/libmodels/*; sampled on every run by tools/library_contracts.py, cross-checked against CPython by tools/crosscheck.py in the thorough tier)",
+            "loop rules and local fragment summaries (pyvc/loops.py, pyvc/summary.py, pyvc/abscoll.py, contracts/*_tasks.py): the effect of a loop over a symbolic number of items is derived from its body at a generic index (induction performed by the rule, not by the solver)",
+            "SMT solvers z3 4.8.12 / z3 5.1.0 / cvc5 1.0.3 and Lean 4.33 + Mathlib are trusted",
+        ],
         "wall_s": round(wall, 2),
         "violations": sum(1 for l in lines if l.startswith("VIOLATION")),
     }
